@@ -120,6 +120,25 @@ ADDED = {
 }
 for k, v in ADDED.items():
     CHECKS[k]["text"] += v
+ADDED3 = {
+ "C01": " Round 3: a piece of the input compared with a network prefix is cut with bounds depending on that prefix's length only; the functions of address.go, hash160/256.go and base58 keep no unguarded mutable package-level state.",
+ "C02": " Round 3: in-place case folding of a copy of the input touches only bytes proved to lie in 'A'..'Z'; the case-folded input reaches the CashAddr decoder only behind a prepended prefix.",
+ "C03": " Round 3: bech32 symbol decoding is the position in the searched BIP173 charset or a reverse table that inverts it with every other entry rejected (tables filled at package initialisation are constant-folded); the whole-input and canonical-input clauses are filed under C03.inject too.",
+ "C04": " Round 3: no unguarded package-level state in hdkeychain (scratch hash / HMAC objects); the bytes of the version field, handed from key to key by reference, are never written in place; memo coherence of ExtendedKey.",
+ "C05": " Round 3: no unguarded package-level state in hdkeychain and base58 (math/big scratch values); a memoised serialisation follows SetNet and Zero.",
+ "C06": " Round 3: no unguarded package-level state in wif.go / base58 (shared hash states).",
+ "C07": " Round 3: a positional value accumulated in a machine word cannot wrap (radix^digits <= 2^width from the conditions dominating the loop or every call); reverse-table form of the bech32 decode table; no unguarded package-level state.",
+ "C08": " Round 3: a counted loop that calls a fallible in-repo reader on every iteration is left when the call fails (C08.eof); a pointer an in-repo function may return as nil is tested before it is dereferenced or handed to code outside the repository (C08.nil).",
+ "C09": " Round 3: hashing, insertion and query functions never write through the element they are given; no unguarded package-level state.",
+ "C10": " Round 3: every data push read from a script is handed, whenever it is read, to a function that tests it for membership on all of its paths; the spender index is many-valued (append onto the entry under the same key) and every registered spender is re-checked.",
+ "C11": " Round 3: the set both builders prove comes from a scanner whose spender index loses no spender (C11.select); the extractor's unpacking may go through a byte-to-bits table, whose contents are folded from the package initialiser and compared with (f>>b)&1.",
+ "C12": " Round 3: the constructor expands all 8*len(Flags) flag bits, bit b of byte k to position 8k+b (C12.unpack); recording a match depends on the node's height, its flag bit and the cursors only (C12.matches).",
+ "C14": " Round 3: the builder hashes every item of its input and its encode loop ranges over the very slice that was sorted (no entry dropped or added in between) (C14.every).",
+ "C15": " Round 3: inside one key a wiped buffer and a buffer shared by reference are disjoint windows of any slice they are both cut from; Zero's wipe-before-drop ordering also holds for written-out loops.",
+ "C16": " Round 3: a constructor caches as serialisation only nil or its caller's serialisation argument.",
+}
+for k, v in ADDED3.items():
+    CHECKS[k]["text"] += v
 CHECKS["C08"]["text"] = CHECKS["C08"]["text"].replace("For all 73 in-repo functions", "For all in-repo functions").replace("(5 named exceptions, each with a premise the prover still checks)", "(named exceptions, each with a premise the prover still checks)")
 
 NA_REASON = {
